@@ -9,7 +9,7 @@ import tempfile
 
 import vlib
 
-ELEMS = {"TC1": 1, "TC4": 4, "TC12": 12, "TC32": 32, "TR": 20, "NTR": 21, "PTT": 22, "PTN": 23}
+ELEMS = {"TC1": 1, "TCS1": 2, "TC4": 4, "TC12": 12, "TC32": 32, "TR": 20, "NTR": 21, "PTT": 22, "PTN": 23}
 ALLOCS = {"amc": 0, "std": 1, "ledgerstd": 2, "ledgerrealloc": 3, "ledgerbasic": 4}
 FLAV = {"vector": 0, "small": 1, "fixed": 2, "fixedu": 3}
 TRACKED = ("TR", "NTR", "PTT", "PTN")
@@ -50,6 +50,7 @@ def quick_matrix():
         inst("small", 2, "PTT", st="uint64_t", alloc="ledgerbasic", L=3),
         inst("small", 2, "NTR", st="int8_t", alloc="ledgerstd", std="c++20", L=3),
         inst("vector", 0, "TC4", L=4),
+        inst("vector", 0, "TCS1", st="uint16_t", K=2, L=2, opts=["--few-ranges", "--no-ctors"]),  # signed bytes, negative values
         inst("vector", 0, "NTR", st="uint8_t", alloc="ledgerstd", L=3),
         inst("vector", 0, "TR", st="int32_t", alloc="ledgerrealloc", L=2, K=2, opts=["--few-ranges", "--no-ctors"]),
         inst("fixed", 3, "NTR", st="uint8_t", L=3),
@@ -63,7 +64,7 @@ def thorough_matrix():
     m = []
     sts = ["uint8_t", "int8_t", "uint16_t", "int16_t", "uint32_t", "int32_t", "uint64_t"]
     allocs = ["amc", "std", "ledgerstd", "ledgerrealloc", "ledgerbasic"]
-    elems = ["TC1", "TC4", "TC12", "TR", "NTR", "PTT", "PTN"]
+    elems = ["TC1", "TCS1", "TC4", "TC12", "TR", "NTR", "PTT", "PTN"]
     n = 0
     # every (flavour,N) x every element category; size_type and allocator rotated so that each pair (element,size_type),
     # (element,allocator), (flavour,size_type), (flavour,allocator) occurs; size bound chosen so that every
@@ -108,7 +109,7 @@ class Eng:
 
 
 def _vcat(i):
-    return {"TC1": "TC", "TC4": "TC", "TC12": "TC", "TC32": "TC", "TR": "TR", "PTT": "TR", "NTR": "NTR", "PTN": "NTR"}[i["elem"]]
+    return {"TC1": "TC", "TCS1": "TC", "TC4": "TC", "TC12": "TC", "TC32": "TC", "TR": "TR", "PTT": "TR", "NTR": "NTR", "PTN": "NTR"}[i["elem"]]
 
 
 def _vkind(i):
